@@ -78,3 +78,139 @@ STATE_GATE = {'ClientException': 'return Ok(())', 'ServerClosing': 'return Frame
 
 # hard error codes (AMQP 0-9-1 section 1.2 constants)
 HARD_ERROR_CODES = {'NOTALLOWED': 530, 'NOTIMPLEMENTED': 540}
+
+
+# --------------------------------------------------------------------------------------------
+# Ordered notable effects each arm must perform (C04/C08/C09/C11/C13). Written from the property
+# statements in the vocabulary of engine/amqlint/dispatch.py::script_of: only calls into the
+# connection-state helpers, Inner, ChannelSlots, the collector, crossbeam and HashMap are listed,
+# plus state assignments and early returns; logging and pure computations are not part of a script.
+CS = 'io_loop::connection_state::'
+AP = 'amq_protocol::protocol::'
+N = 'frame.Method.0'
+
+
+def payload(cls, meth):
+    return 'frame.Method.1.%s.0.%s.0' % (cls.capitalize(), meth)
+
+
+def slot(fn, ch=N):
+    return '%s%s(inner, %s)' % (CS, fn, ch)
+
+
+def for_(it):
+    return 'for(%s)' % it
+
+
+def item(it):
+    return 'iter_item(%s)' % it
+
+
+DRAIN_ALL = 'io_loop::channel_slots::ChannelSlots::drain(inner.chan_slots)'
+
+
+def notify_all(slot_msg, consumer_msg):
+    """every open channel's caller and every consumer of every channel is told (C08)"""
+    cons = 'std::collections::HashMap::drain(%s.1.consumers)' % item(DRAIN_ALL)
+    return [
+        DRAIN_ALL,
+        '%s > %ssend(%s.1.tx, %s)' % (for_(DRAIN_ALL), CS, item(DRAIN_ALL), slot_msg),
+        '%s > %s' % (for_(DRAIN_ALL), cons),
+        '%s > %s > %ssend(%s.1, %s)' % (for_(DRAIN_ALL), for_(cons), CS, item(cons), consumer_msg),
+    ]
+
+
+def notify_consumers_of(slot_term, consumer_msg, ctx=''):
+    cons = 'std::collections::HashMap::drain(%s.consumers)' % slot_term
+    return [ctx + cons, '%s%s > %ssend(%s.1, %s)' % (ctx, for_(cons), CS, item(cons), consumer_msg)]
+
+
+_SC = payload('connection', 'Close')
+_SRV_CONN_ERR = 'errors::Error::ServerClosedConnection{code: %s.reply_code, message: %s.reply_text}' % (_SC, _SC)
+_CC = payload('channel', 'Close')
+_SRV_CHAN_ERR = 'errors::Error::ServerClosedChannel{channel_id: %s, code: %s.reply_code, message: %s.reply_text}' % (N, _CC, _CC)
+_REMOVED = slot('slot_remove') + '?'
+_REMOVED_OK = slot('slot_remove') + '.Ok.0'
+_SLOTM = slot('slot_get_mut') + '?'
+_SLOT = slot('slot_get') + '?'
+
+
+def _removed_consumer(tag):
+    return 'std::collections::HashMap::remove(%s.consumers, %s)' % (_SLOTM, tag)
+
+
+ARM_SCRIPTS = {
+    # C08: server closes the connection: CloseOk is queued, the buffer sealed, then the state changes and everybody is told
+    ('Method', '0', 'connection', 'Close'): [
+        'io_loop::Inner::push_method(inner, 0, %sconnection::AMQPMethod::CloseOk(%sconnection::CloseOk{}))' % (AP, AP),
+        'io_loop::Inner::seal_writes(inner)',
+        'self = %sConnectionState::ServerClosing(%s)' % (CS, _SC),
+    ] + notify_all('Err(%s)' % _SRV_CONN_ERR, 'consumer::ConsumerMessage::ServerClosedConnection(%s)' % _SRV_CONN_ERR),
+    # C08: server confirms the client's close: the caller gets the CloseOk, then everybody else is told
+    ('Method', '0', 'connection', 'CloseOk'): [
+        'crossbeam_channel::Sender::send(self.Steady.0.common.tx, Ok(io_loop::ChannelMessage::Method(%sAMQPClass::Connection(%sconnection::AMQPMethod::CloseOk(%s)))))'
+        % (AP, AP, payload('connection', 'CloseOk')),
+        'self = %sConnectionState::ClientClosed' % CS,
+    ] + notify_all('Err(errors::Error::ClientClosedConnection)', 'consumer::ConsumerMessage::ClientClosedConnection'),
+    # C09: server closes channel n: only slot n is touched
+    ('Method', 'n', 'channel', 'Close'): [
+        slot('slot_remove'),
+        '%ssend(%s.tx, Err(%s))' % (CS, _REMOVED, _SRV_CHAN_ERR),
+    ] + notify_consumers_of(_REMOVED, 'consumer::ConsumerMessage::ServerClosedChannel(%s)' % _SRV_CHAN_ERR) + [
+        'io_loop::Inner::push_method(inner, %s, %schannel::AMQPMethod::CloseOk(%schannel::CloseOk{}))' % (N, AP, AP),
+    ],
+    # C11/C04: server confirms the client's channel close (a missing slot is the documented Close/CloseOk race)
+    ('Method', 'n', 'channel', 'CloseOk'): [
+        slot('slot_remove'),
+        'if(let Ok(_) = %s) > %ssend(%s.tx, Ok(io_loop::ChannelMessage::Method(%sAMQPClass::Channel(%schannel::AMQPMethod::CloseOk(%s)))))'
+        % (slot('slot_remove'), CS, _REMOVED_OK, AP, AP, payload('channel', 'CloseOk')),
+    ] + notify_consumers_of(_REMOVED_OK, 'consumer::ConsumerMessage::ClientClosedChannel', 'if(let Ok(_) = %s) > ' % slot('slot_remove')),
+    # C04/C11: consume-ok: duplicate tag is an error; otherwise an unbounded queue is stored under the tag and handed to the caller
+    ('Method', 'n', 'basic', 'ConsumeOk'): None,  # checked field-wise by R07.4 / R03.6 / R04
+    # C11: server cancels a consumer: terminal message to the removed consumer, CancelOk unless nowait
+    ('Method', 'n', 'basic', 'Cancel'): [
+        slot('slot_get_mut'),
+        _removed_consumer(payload('basic', 'Cancel') + '.consumer_tag'),
+        'if(let Some(_) = %s) > %ssend(%s.Some.0, consumer::ConsumerMessage::ServerCancelled)'
+        % (_removed_consumer(payload('basic', 'Cancel') + '.consumer_tag'), CS, _removed_consumer(payload('basic', 'Cancel') + '.consumer_tag')),
+        'if(!%s.nowait) > io_loop::Inner::push_method(inner, %s, %sbasic::AMQPMethod::CancelOk(%sbasic::CancelOk{consumer_tag: %s.consumer_tag}))'
+        % (payload('basic', 'Cancel'), N, AP, AP, payload('basic', 'Cancel')),
+    ],
+    # C11: server confirms the client's cancel: consumer removed, caller answered, then the terminal message
+    ('Method', 'n', 'basic', 'CancelOk'): [
+        slot('slot_get_mut'),
+        _removed_consumer(payload('basic', 'CancelOk') + '.consumer_tag'),
+        '%ssend(%s.tx, Ok(io_loop::ChannelMessage::Method(%sAMQPClass::Basic(%sbasic::AMQPMethod::CancelOk(%s)))))'
+        % (CS, _SLOTM, AP, AP, payload('basic', 'CancelOk')),
+        'if(let Some(_) = %s) > %ssend(%s.Some.0, consumer::ConsumerMessage::ClientCancelled)'
+        % (_removed_consumer(payload('basic', 'CancelOk') + '.consumer_tag'), CS, _removed_consumer(payload('basic', 'CancelOk') + '.consumer_tag')),
+    ],
+    # C04: no message for a get
+    ('Method', 'n', 'basic', 'GetEmpty'): [
+        slot('slot_get'),
+        '%ssend(%s.tx, Ok(io_loop::ChannelMessage::GetOk(None)))' % (CS, _SLOT),
+    ],
+    # C13: confirms forwarded verbatim to the channel's listener
+    ('Method', 'n', 'basic', 'Ack'): [
+        slot('slot_get_mut'),
+        '%stry_send_confirm(%s, confirm::Confirm::Ack(confirm::ConfirmPayload{delivery_tag: %s.delivery_tag, multiple: %s.multiple}))'
+        % (CS, _SLOTM, payload('basic', 'Ack'), payload('basic', 'Ack')),
+    ],
+    ('Method', 'n', 'basic', 'Nack'): [
+        slot('slot_get_mut'),
+        '%stry_send_confirm(%s, confirm::Confirm::Nack(confirm::ConfirmPayload{delivery_tag: %s.delivery_tag, multiple: %s.multiple}))'
+        % (CS, _SLOTM, payload('basic', 'Nack'), payload('basic', 'Nack')),
+    ],
+    # C13: blocked / unblocked notices
+    ('Method', '0', 'connection', 'Blocked'): [
+        '%stry_send_blocked(self.Steady.0, connection::ConnectionBlockedNotification::Blocked(%s.reason))' % (CS, payload('connection', 'Blocked')),
+    ],
+    ('Method', '0', 'connection', 'Unblocked'): [
+        '%stry_send_blocked(self.Steady.0, connection::ConnectionBlockedNotification::Unblocked)' % CS,
+    ],
+    # C04: generic replies go, unchanged, to the reply queue of the frame's channel
+    ('Method', 'n', 'basic', 'QosOk'): [
+        slot('slot_get'),
+        '%ssend(%s.tx, Ok(io_loop::ChannelMessage::Method(frame.Method.1)))' % (CS, _SLOT),
+    ],
+}
